@@ -181,3 +181,64 @@ Proof.
   { unfold wf_rcb in Hw. apply andb_prop in Hw. destruct Hw as [Hw _]. apply andb_prop in Hw. exact Hw. }
   exact (default_rule_balanced tpl rc0 l0 r0 (proj1 Hnd) Hel (proj2 Hnd) Es Hcond).
 Qed.
+
+(** * the template-side hypotheses as one boolean ([default_tpl_okb], proof/C03_ReactorSpec.v) *)
+From Coq Require Import Permutation.
+Lemma countZ_perm' {A} (P : A -> bool) l l' : Permutation l l' -> countZ P l = countZ P l'.
+Proof. unfold countZ. induction 1; simpl; try (destruct (P x)); try (destruct (P y)); simpl; try lia. Qed.
+
+Lemma filter_keepn_ext (R R' : list N) (l : list (N * inode)) : (forall h, In h R <-> In h R') -> filter (keepn R) l = filter (keepn R') l.
+Proof.
+  intros H. apply filter_ext. intros p. unfold keepn. f_equal.
+  destruct (mem (fst p) R) eqn:E1, (mem (fst p) R') eqn:E2; try reflexivity.
+  - apply mem_spec in E1. apply H in E1. apply mem_spec in E1. congruence.
+  - apply mem_spec in E2. apply H in E2. apply mem_spec in E2. congruence.
+Qed.
+
+Theorem tpl_condb_sound tpl : NoDup (node_ids tpl) -> tpl_condb tpl = true -> tpl_condition tpl.
+Proof.
+  intros Hnd Hb R K NR NK HR HK. unfold tpl_condb in Hb. apply andb_prop in Hb. destruct Hb as [B1 B2].
+  rewrite forallb_forall in B1. apply Z.eqb_eq in B2.
+  assert (ER : forall h, In h R <-> In h (removedR tpl)).
+  { intros h. rewrite HR. unfold removedR. rewrite filter_In. split.
+    - intros (A & B & C). split; [|rewrite A, B, C; reflexivity].
+      apply has_node_in. unfold is_H_i in A. unfold has_node. destruct (label tpl h); [reflexivity|discriminate].
+    - intros (_ & H). apply andb_prop in H. destruct H as [H C]. apply andb_prop in H. tauto. }
+  assert (PK : Permutation K (keptK tpl)).
+  { apply NoDup_Permutation; [exact NK|apply NoDup_filter; exact Hnd|].
+    intros k. rewrite HK. unfold keptK. rewrite filter_In. split; intros [A B]; (split; [exact A|]).
+    - rewrite B. reflexivity.
+    - apply negb_true_iff in B. exact B. }
+  split.
+  - intros h Ih. apply ER in Ih. specialize (B1 h Ih). apply Z.eqb_eq in B1.
+    rewrite (countZ_perm' _ _ _ PK), (countZ_perm' (fun k => bonded eG tpl k h) _ _ PK). exact B1.
+  - rewrite (filter_keepn_ext R (removedR tpl) _ ER). exact B2.
+Qed.
+
+Theorem default_tpl_okb_sound tpl : default_tpl_okb tpl = true ->
+  (forall k a, In (k, a) (gnodes tpl) -> a_el (iH a) = a_el (iG a)) /\ wf_rcb tpl = true /\ edges_closedb tpl = true /\ tpl_condition tpl.
+Proof.
+  unfold default_tpl_okb. intros H. apply andb_prop in H. destruct H as [H H4]. apply andb_prop in H. destruct H as [H H3].
+  apply andb_prop in H. destruct H as [H1 H2]. split; [|split; [exact H1|split; [exact H2|]]].
+  - intros k a I. unfold same_elb in H3. rewrite forallb_forall in H3. specialize (H3 _ I). apply N.eqb_eq in H3. exact H3.
+  - apply tpl_condb_sound; [exact (wf_rc_nodup tpl H1)|exact H4].
+Qed.
+
+(** the default mode end to end, forwards and backwards, the template-side hypotheses as the evaluated boolean *)
+Theorem its_list_default_bool (invert : bool) inp tpl rc l r gs :
+  default_tpl_okb tpl = true ->
+  i_rule inp = synrule (if invert then invert_template tpl else tpl) true ->
+  synrule (if invert then invert_template tpl else tpl) true = Some (rc, l, r) ->
+  wf_hostb (i_host inp) = true -> forallb (call_okm (i_host inp) l) (i_calls inp) = true ->
+  spec_its inp = Some gs ->
+  forall g, In g gs ->
+    instance_of (i_host inp) rc g /\
+    (forall e, elem_count e (fst (its_decompose g)) = elem_count e (snd (its_decompose g))) /\
+    total_charge (fst (its_decompose g)) = total_charge (snd (its_decompose g)).
+Proof.
+  intros Hb Ei Es Hwh Hcalls Hits g Ig. destruct (default_tpl_okb_sound tpl Hb) as (Hel & Hw & Hc & Hcond).
+  destruct invert.
+  - exact (its_list_default_end_to_end_backward inp tpl rc l r gs Ei Es Hel Hw Hc Hcond Hwh Hcalls Hits g Ig).
+  - exact (its_list_default_end_to_end inp tpl rc l r gs Ei Es Hel Hw Hc Hcond Hwh Hcalls Hits g Ig).
+Qed.
+
